@@ -1,2 +1,250 @@
-(* C09 — dense NumPy reference semantics (placeholder, filled below) *)
+(* C09 — dense reference semantics: what NumPy computes on the dense images, with NumPy's broadcasting
+   and error rules, under thermosteam's np.seterr(divide='raise', invalid='raise').
+   Definitions only.  Arrays are [list Q] / [list bool]; a scalar operand is a length-1 array as far as
+   broadcasting is concerned. *)
 From V Require Export Common.Num C09.Model.
+
+(* ------------------------------------------------------------------ abstraction *)
+Inductive dobj :=
+| DV (v : list Q) (ro : bool) | DL (b : bits)
+| DA (m : list (list Q)) (ro : bool) | DB (m : list bits).
+Definition absobj (o : obj) : dobj :=
+  match o with
+  | OV c ro => DV (dense c) ro
+  | OL b => DL b
+  | OA rows ro => DA (map dense rows) ro
+  | OB rows => DB rows
+  end.
+Definition dstore := list dobj.
+Definition abs_store (s : store) : dstore := map absobj s.
+
+(* ------------------------------------------------------------------ elementwise operations with broadcasting *)
+Definition aop_q (o : aop) (x y : Q) : res Q :=
+  match o with
+  | Add => Ok (x + y) | Sub => Ok (x - y) | Mul => Ok (x * y)
+  | Div => qdiv x y                   (* x/0: divide -> FloatingPointError;  0/0: invalid -> FloatingPointError *)
+  end.
+(* binary ufunc on 1-d operands: shapes (n,)(n,) ; (1,)(n,) ; (n,)(1,) ; anything else ValueError.
+   The shape test comes before any element is computed. *)
+Definition np_bcast {A B C} (f : A -> B -> res C) (da : A) (db : B) (a : list A) (b : list B) : res (list C) :=
+  if Nat.eqb (length a) (length b) then map2M f a b
+  else if Nat.eqb (length a) 1 then mapM (f (hd da a)) b
+  else if Nat.eqb (length b) 1 then mapM (fun x => f x (hd db b)) a
+  else Err EValue.
+(* in-place ufunc (out = first operand): the result must have the shape of the target *)
+Definition np_ibcast {A B} (f : A -> B -> res A) (db : B) (a : list A) (b : list B) : res (list A) :=
+  if Nat.eqb (length a) (length b) then map2M f a b
+  else if Nat.eqb (length b) 1 then mapM (fun x => f x (hd db b)) a
+  else Err EValue.                      (* non-broadcastable output operand *)
+
+Definition np_arith (o : aop) (a b : list Q) : res (list Q) := np_bcast (aop_q o) 0 0 a b.
+Definition np_iarith (o : aop) (a b : list Q) : res (list Q) := np_ibcast (aop_q o) 0 a b.
+Definition np_cmp (c : cmp) (a b : list Q) : res bits := np_bcast (fun x y => Ok (qcmp c x y)) 0 0 a b.
+Definition lop_b (o : lop) (x y : bool) : res bool :=
+  match o with
+  | LAdd | LOr => Ok (x || y) | LMul | LAnd => Ok (x && y) | LXor => Ok (xorb x y)
+  | LDiv => if y then Ok x else Err EZeroDiv
+  end.
+Definition np_logic (o : lop) (a b : bits) : res bits := np_bcast (lop_b o) false false a b.
+Definition np_ilogic (o : lop) (a b : bits) : res bits := np_ibcast (lop_b o) false a b.
+Definition np_bcmp (c : cmp) (a b : bits) : res bits := np_bcast (fun x y => Ok (bcmp c x y)) false false a b.
+
+Definition np_neg (a : list Q) : list Q := map Qopp a.
+Definition np_abs (a : list Q) : list Q := map Qabs a.
+
+(* ------------------------------------------------------------------ reductions *)
+Definition np_any (a : list Q) : bool := existsb truthy a.
+Definition np_all (a : list Q) : bool := forallb truthy a.
+Definition np_sum (a : list Q) : Q := qsum a.
+Definition np_mean (a : list Q) : res Q := if len0 a then Err EZeroDiv else Ok (qsum a / qofnat (length a)).
+Definition np_max (a : list Q) : res Q := match a with [] => Err EValue | x :: t => Ok (qmaxl x t) end.
+Definition np_min (a : list Q) : res Q := match a with [] => Err EValue | x :: t => Ok (qminl x t) end.
+
+(* ------------------------------------------------------------------ indexing (non-negative indices) *)
+Definition np_get1 {A} (a : list A) (i : nat) : res A :=
+  match nth_error a i with Some x => Ok x | None => Err EIndex end.
+Definition np_index_list (n : nat) (ix : index) : res (list nat) :=
+  match ix with
+  | IInt k | ITup k => Ok [k]
+  | IList l => Ok l
+  | IMask m => if Nat.eqb (length m) n then Ok (mask_idx m) else Err EIndex
+  | ISlice a b c => Ok (slice_range (Nat.min a n) (Nat.min b n) c)          (* slices clip *)
+  | IOpen => Ok (seq 0 n)
+  end.
+Definition np_take {A} (a : list A) (idx : list nat) : res (list A) := mapM (np_get1 a) idx.
+Fixpoint np_put {A} (a : list A) (idx : list nat) (vals : list A) : res (list A) :=
+  match idx, vals with
+  | i :: idx', v :: vals' => if Nat.ltb i (length a) then np_put (upd a i v) idx' vals' else Err EIndex
+  | _, _ => Ok a
+  end.
+(* a[idx] = vals: vals has the length of idx or length 1 (broadcast); otherwise ValueError *)
+Definition np_setitems {A} (a : list A) (idx : list nat) (vals : list A) : res (list A) :=
+  if forallb (fun i => Nat.ltb i (length a)) idx then
+    if Nat.eqb (length vals) (length idx) then np_put a idx vals
+    else match vals with
+         | [v] => np_put a idx (repeat v (length idx))
+         | _ => Err EValue
+         end
+  else Err EIndex.
+
+(* ------------------------------------------------------------------ dense step for the float-vector fragment *)
+Inductive doutcome :=
+| DErr (e : err) | DNew (o : dobj) | DUpd (o : dobj) | DSelf
+| DScal (q : Q) | DBool (b : bool) | DDense (l : list Q) | DDenseB (l : bits)
+| DSkip.                    (* operation outside the fragment covered by the dense step *)
+
+Definition dget (s : dstore) (i : nat) : res dobj :=
+  match nth_error s i with Some o => Ok o | None => Err EOther end.
+(* operand as a 1-d float array (a scalar is a length-1 array); None = outside the fragment *)
+Definition darg (s : dstore) (a : arg) : option (list Q) :=
+  match a with
+  | AObj j => match nth_error s j with
+              | Some (DV v _) => Some v
+              | Some (DL b) => Some (map b2q b)
+              | _ => None end
+  | AScal q => Some [q]
+  | ABool b => Some [b2q b]
+  | AArr l => Some l
+  | ABArr l => Some (map b2q l)
+  | _ => None
+  end.
+Definition dres {A} (r : res A) (f : A -> doutcome) : doutcome := match r with Ok x => f x | Err e => DErr e end.
+
+Definition np_step (s : dstore) (o : xop) : dstore * doutcome :=
+  let skip := (s, DSkip) in
+  match o with
+  | XOp (OBin (BA a) i x) =>
+      match nth_error s i, darg s x with
+      | Some (DV v _), Some w =>
+          match np_arith a v w with
+          | Ok r => (s ++ [DV r false], DNew (DV r false))
+          | Err e => (s, DErr e) end
+      | _, _ => skip end
+  | XOp (OBin (BC c) i x) =>
+      match nth_error s i, darg s x with
+      | Some (DV v _), Some w =>
+          match np_cmp c v w with
+          | Ok r => (s ++ [DL r], DNew (DL r))
+          | Err e => (s, DErr e) end
+      | _, _ => skip end
+  | XOp (OIBin (BA a) i x) =>
+      match nth_error s i, darg s x with
+      | Some (DV v ro), Some w =>
+          if ro then (s, DErr EValue)
+          else match np_iarith a v w with
+               | Ok r => (upd s i (DV r ro), DUpd (DV r ro))
+               | Err e => (s, DErr e) end
+      | _, _ => skip end
+  | XOp (ORBin a k i) =>
+      match nth_error s i with
+      | Some (DV v _) =>
+          match np_arith a [k] v with
+          | Ok r => (s ++ [DV r false], DNew (DV r false))
+          | Err e => (s, DErr e) end
+      | _ => skip end
+  | XOp (ONeg i) =>
+      match nth_error s i with
+      | Some (DV v _) => (s ++ [DV (np_neg v) false], DNew (DV (np_neg v) false))
+      | _ => skip end
+  | XOp (OAbs i) =>
+      match nth_error s i with
+      | Some (DV v _) => (s ++ [DV (np_abs v) false], DNew (DV (np_abs v) false))
+      | _ => skip end
+  | XOp (OCopy i) =>
+      match nth_error s i with
+      | Some (DV v _) => (s ++ [DV v false], DNew (DV v false))
+      | _ => skip end
+  | XOp (OClear i) =>                                    (* a[:] = 0 *)
+      match nth_error s i with
+      | Some (DV v ro) => if ro then (s, DErr EValue)
+                          else (upd s i (DV (map (fun _ => 0) v) ro), DUpd (DV (map (fun _ => 0) v) ro))
+      | _ => skip end
+  | XOp (OSetRO i) =>
+      match nth_error s i with
+      | Some (DV v _) => (upd s i (DV v true), DUpd (DV v true))
+      | _ => skip end
+  | XOp (OToArray i) =>
+      match nth_error s i with
+      | Some (DV v _) => (s, DDense v)
+      | _ => skip end
+  | XOp (OGet i ix) =>
+      match nth_error s i with
+      | Some (DV v _) =>
+          match ix with
+          | IOpen => (s, DSelf)
+          | IInt k | ITup k => (s, dres (np_get1 v k) DScal)
+          | _ => (s, dres (do idx <- np_index_list (length v) ix; np_take v idx) DDense)
+          end
+      | _ => skip end
+  | XOp (OSet i ix x) =>
+      match nth_error s i, darg s x with
+      | Some (DV v ro), Some w =>
+          if ro then (s, DErr EValue)
+          else match ix with
+               | IInt k | ITup k =>
+                   match w with
+                   | [q] => match (if Nat.ltb k (length v) then Ok (upd v k q) else Err EIndex) with
+                            | Ok r => (upd s i (DV r ro), DUpd (DV r ro))
+                            | Err e => (s, DErr e) end
+                   | _ => (s, DErr EValue)                 (* setting an array element with a sequence *)
+                   end
+               | _ => match (do idx <- np_index_list (length v) ix; np_setitems v idx w) with
+                      | Ok r => (upd s i (DV r ro), DUpd (DV r ro))
+                      | Err e => (s, DErr e) end
+               end
+      | _, _ => skip end
+  | XOp (ORed r i axis keep) =>
+      match nth_error s i with
+      | Some (DV v _) =>
+          match axis with
+          | None | Some O =>
+              let num (x : res Q) := match x with
+                                     | Err e => (s, DErr e)
+                                     | Ok q => if keep then (s ++ [DV [q] false], DNew (DV [q] false)) else (s, DScal q) end in
+              let lg (x : bool) := if keep then (s ++ [DL [x]], DNew (DL [x])) else (s, DBool x) in
+              match r with
+              | RAny => lg (np_any v) | RAll => lg (np_all v)
+              | RSum => num (Ok (np_sum v)) | RMean => num (np_mean v)
+              | RMax => num (np_max v) | RMin => num (np_min v)
+              end
+          | _ => (s, DErr EValue)                            (* AxisError, a ValueError *)
+          end
+      | _ => skip end
+  | _ => skip
+  end.
+
+(* NumPy's results along a sparse history: at every step the dense images of the current sparse objects *)
+Fixpoint run_np (lg : bool) (s : store) (ops : list xop) : list doutcome :=
+  match ops with
+  | [] => []
+  | o :: t => let d := snd (np_step (abs_store s) o) in
+              let (s', r) := xstep lg s o in
+              if crashed r then [d] else d :: run_np lg s' t
+  end.
+
+(* comparison with what NumPy returned in the harness *)
+Definition dobj_eqb (a b : dobj) : bool :=
+  match a, b with
+  | DV x _, DV y _ => vapproxb x y
+  | DL x, DL y => bits_eqb x y
+  | DV x _, DL y | DL y, DV x _ => vapproxb x (map b2q y)
+  | DA x _, DA y _ => list_eqb vapproxb x y
+  | DB x, DB y => list_eqb bits_eqb x y
+  | _, _ => false
+  end.
+Definition doutcome_eqb (a b : doutcome) : bool :=
+  match a, b with
+  | DSkip, _ | _, DSkip => true
+  | DErr e, DErr f => err_eqb e f
+  | DNew x, DNew y | DUpd x, DUpd y => dobj_eqb x y
+  | DSelf, DSelf => true
+  | DScal x, DScal y => qapproxb x y
+  | DBool x, DBool y => Bool.eqb x y
+  | DScal x, DBool y | DBool y, DScal x => qapproxb x (b2q y)
+  | DDense x, DDense y => vapproxb x y
+  | DDenseB x, DDenseB y => bits_eqb x y
+  | DDense x, DDenseB y | DDenseB y, DDense x => vapproxb x (map b2q y)
+  | _, _ => false
+  end.
+Definition run_np_eqb (lg : bool) (s : store) (ops : list xop) (outs : list doutcome) : bool :=
+  list_eqb doutcome_eqb (run_np lg s ops) outs.
